@@ -45,6 +45,10 @@ func VerifHarness_FrameCall() {
 	addr := verifAddr("addr")
 	verifAssume(addr[0] != 0) // precompile targets have their own harness
 	value := verifBig("value")
+	// the frame may sit below a STATICCALL (the CALL instruction refuses value there)
+	staticCtx := verifBool("static-context")
+	verifAssume(!staticCtx || value.Sign() == 0)
+	evm.interpreter.readOnly = staticCtx
 	gas := verifU64("gas")
 	inLen := verifU64("inlen")
 	verifAssume(inLen <= 8)
@@ -57,6 +61,9 @@ func VerifHarness_FrameCall() {
 	outer := verifBool("outer")
 	verifAssume(outer == (verifParam("outer") == 1) || verifParam("outer") == 2)
 	if outer {
+		// two enclosing nodes: the issuing frame has index 1, its parent index 0 (which is also
+		// what an empty cursor reports), so a cursor left one level too high changes the stamp
+		tr.SaveCall(callerAddr, &callerAddr, nil, uint256.NewInt(0), uint256.NewInt(0))
 		tr.SaveCall(callerAddr, &callerAddr, nil, uint256.NewInt(0), uint256.NewInt(0))
 	}
 	expectedIndex := tr.callTree.count
